@@ -22,6 +22,7 @@ CAUSE = {
     "spacing:&": "profile klaus (mod_paren_on_return=add, sp_addr ignore, sp_arith force): '&' in an unparenthesised return expression is taken for address-of in pass 1 (author's spacing kept) and for the binary operator in pass 2",
     "spacing:^": "profile klaus (mod_paren_on_return=add): '^' after '(v1 > v3) * g2 <= v0' is taken for a block caret in pass 1 ('v0 ^f0(v0)') and for the operator in pass 2",
     "spacing:*": "profile klaus (sp_arith=force, sp_deref ignore): the classification of '*' depends on the spacing pass 1 produced",
+    "content": "profiles ben/klaus (nl_var_def_blk_end_func_top=1): the blank line behind the variable definitions of a function whose whole body stood on one input line ('int vnest(int a) { int r = 0; int i; if (a) ...') is added only by pass 2; it shows only behind certain preceding functions (a dangling else with a trailing comment two functions earlier), and could not be reduced to a stand-alone input - the newline passes see the definitions still on the line of the opening brace in pass 1",
     "wholeline-comment:after-trailing": "indent_comment_align_thresh (default 3): a comment on its own line below a trailing comment is aligned with it when their ORIGINAL columns are at most 3 apart; pass 1 moves both lines and pass 2 measures other distances (indent.cpp indent_comment() rule 3)",
 }
 
